@@ -101,6 +101,7 @@ func runC03(c *core.Ctx) {
 	c.Rule("R2", "every store into a receiver map is paired with recording the same key in the returned change; nil change is returned iff nothing was recorded", 3)
 	c.Rule("R3", "normalisation of the incoming descriptor dominates the merge loop", 1)
 	c.Rule("R4", "stores outside the LWW loops and every use of the clock parameter are control-dependent on localCAS (gossip merges read no clock)", 2)
+	c.Rule("R5", "one merge path: Merge is a pure delegation to the analysed merge function, and the KV store hands the decoded incoming value to Merge untouched", 3)
 	fns := mergeFns(c, "R1")
 	covered := map[string]bool{}
 	for _, sp := range lwwSpec {
@@ -118,6 +119,7 @@ func runC03(c *core.Ctx) {
 			c.Undec("R1", "type="+name, fn.Pos(), "a new memberlist.Mergeable implementation in package ring is not covered by the register table in props/c03.go")
 		}
 	}
+	c03SinglePath(c, fns)
 	// R4 once per merge function
 	done := map[*an.Fn]bool{}
 	for _, sp := range lwwSpec {
@@ -697,4 +699,82 @@ func head(s []string, n int) []string {
 		return append(append([]string{}, s[:n]...), fmt.Sprintf("… (%d more)", len(s)-n))
 	}
 	return s
+}
+
+// c03SinglePath: R5.
+func c03SinglePath(c *core.Ctx, fns map[string]*an.Fn) {
+	ring := c.Prog.Pkg("ring")
+	for name, mf := range fns {
+		if !strings.HasSuffix(mf.Name, ".mergeWithTime") {
+			continue // the Merge method itself holds the logic and was analysed
+		}
+		m := an.FindFunc(ring, name+".Merge")
+		if m == nil {
+			c.Miss("R5", "func="+name+".Merge", "not found")
+			continue
+		}
+		c.Analysed(m.String())
+		g := m.Graph()
+		nret, ok := 0, true
+		for _, b := range g.Blocks {
+			if r := an.ReturnOf(b); r != nil {
+				nret++
+				if len(r.Results) != 1 || !strings.HasPrefix(m.Canon(r.Results[0]), "recv.mergeWithTime(p0, p1, ") {
+					ok = false
+				}
+			}
+		}
+		stmts := len(m.Body().List)
+		c.Check(ok && nret == 1 && stmts == 1, "R5", "func="+name+".Merge", m.Pos(), fmt.Sprintf("Merge consists of the single statement `return mergeWithTime(other, localCAS, now)` (%d statements, %d returns): no second merge path escapes the decision tables", stmts, nret), 1)
+	}
+	// memberlist: decoded value -> Merge untouched
+	ml := c.Prog.Pkg("kv/memberlist")
+	if fn := an.FindFunc(ml, "KV.mergeBytesValueForKey"); fn != nil {
+		c.Analysed(fn.String())
+		ms := fn.CallsTo(false, "kv/memberlist", "(*KV).mergeValueForKey")
+		ok := len(ms) == 1
+		detail := ""
+		if ok {
+			arg := fn.Canon(ms[0].Expr.Args[1])
+			ok = strings.HasPrefix(arg, "p2.Decode(") && strings.HasSuffix(arg, ")#0")
+			detail = arg
+			// no other use of the decoded value (method call on it / passed elsewhere) before the merge
+			obj := fn.ObjOf(ms[0].Expr.Args[1])
+			uses := 0
+			fn.InspectShallow(func(n ast.Node) bool {
+				if call, isCall := n.(*ast.CallExpr); isCall && call != ms[0].Expr {
+					touch := false
+					ast.Inspect(call, func(x ast.Node) bool {
+						if id, isId := x.(*ast.Ident); isId && obj != nil && fn.Info().Uses[id] == obj {
+							touch = true
+						}
+						return true
+					})
+					if touch && !an.InNode(ms[0].Expr, call) {
+						uses++
+					}
+				}
+				return true
+			})
+			if uses > 0 {
+				ok = false
+				detail += fmt.Sprintf(" (but %d other call(s) touch the decoded value before the merge)", uses)
+			}
+		}
+		c.Check(ok, "R5", "memberlist:mergeBytesValueForKey", fn.Pos(), "the value merged is the decoded incoming value, untouched: "+detail, 1)
+	} else {
+		c.Miss("R5", "func=KV.mergeBytesValueForKey", "not found")
+	}
+	if fn := an.FindFunc(ml, "computeNewValue"); fn != nil {
+		c.Analysed(fn.String())
+		ok := false
+		for _, call := range fn.Calls(false) {
+			if call.Func() != nil && call.Func().Name() == "Merge" && fn.Canon(call.Expr.Args[0]) == "p0" && fn.Canon(call.Expr.Args[1]) == "p3" {
+				if s, isSel := call.Expr.Fun.(*ast.SelectorExpr); isSel && fn.Canon(s.X) == "p2" {
+					ok = true
+				}
+			}
+		}
+		c.Check(ok, "R5", "memberlist:computeNewValue", fn.Pos(), "computeNewValue merges as oldVal.Merge(incoming, cas) with its parameters unchanged", 1)
+	}
 }
